@@ -1470,6 +1470,11 @@ class Parallel(Logger):
         batch_size = self._get_batch_size()
 
         with self._lock:
+            # Another thread may have triggered the abort while this one was
+            # waiting for the lock: do not consume the input any further.
+            if self._aborting:
+                return False
+
             # to ensure an even distribution of the workload between workers,
             # we look ahead in the original iterators more than batch_size
             # tasks - However, we keep consuming only one batch at each
